@@ -89,8 +89,6 @@ type DocSpec struct {
 	DecCls     int
 	Spare      bool // arrays get cap = len+1 with a sentinel
 	WidthCls   int  // for StrMode 1: bitmask of code point classes; 0 = first four
-	rootU      uint32
-	childU     uint32
 }
 
 func defaultSpec() DocSpec {
@@ -101,14 +99,17 @@ type LazyV struct {
 	ID    int
 	Name  string
 	Poss  uint32
-	Depth int
-	Res   *IfaceV
-	// NonNil elements of containers? no: explored by forks
+	Depth  int
+	Res    *IfaceV
+	ChildU uint32
 }
 
-func (in *Interp) newLazy(name string, depth int, universe uint32) *LazyV {
+func (in *Interp) newLazy(name string, depth int, universe uint32, childU uint32) *LazyV {
 	in.lazyN++
-	return &LazyV{ID: in.lazyN, Name: name, Poss: universe, Depth: depth}
+	if childU == 0 {
+		childU = universe
+	}
+	return &LazyV{ID: in.lazyN, Name: name, Poss: universe, Depth: depth, ChildU: childU}
 }
 
 func popcount(x uint32) int {
@@ -294,7 +295,7 @@ func (in *Interp) resolve(l *LazyV, tag int) {
 		}
 		arr := &ArrayV{Elems: make([]Value, c), Org: OrgDoc, ET: in.W.TAny}
 		for i := 0; i < n; i++ {
-			arr.Elems[i] = in.newLazy(fmt.Sprintf("%s_e%d", l.Name, i), l.Depth-1, in.childUniverse(l))
+			arr.Elems[i] = in.newLazy(fmt.Sprintf("%s_e%d", l.Name, i), l.Depth-1, l.ChildU, l.ChildU)
 		}
 		if c > n {
 			arr.Elems[n] = IfaceV{T: in.W.TString, V: ConcStr("<spare>")}
@@ -322,7 +323,7 @@ func (in *Interp) resolve(l *LazyV, tag int) {
 		m := &MapV{Org: OrgDoc, KT: in.W.TString, VT: in.W.TAny, ID: l.ID}
 		for _, k := range ks {
 			m.Keys = append(m.Keys, ConcStr(k))
-			m.Vals = append(m.Vals, in.newLazy(l.Name+"_"+k, l.Depth-1, in.childUniverse(l)))
+			m.Vals = append(m.Vals, in.newLazy(l.Name+"_"+k, l.Depth-1, l.ChildU, l.ChildU))
 		}
 		iv = IfaceV{T: tt, V: m}
 	case TInt, TInt8, TInt16, TInt32, TInt64, TUint, TUint8, TUint16, TUint32, TUint64:
@@ -382,13 +383,6 @@ func (in *Interp) resolve(l *LazyV, tag int) {
 	}
 	l.Poss = 1 << uint(tag)
 	l.Res = &iv
-}
-
-func (in *Interp) childUniverse(l *LazyV) uint32 {
-	if in.spec.childU != 0 {
-		return in.spec.childU
-	}
-	return in.spec.rootU
 }
 
 func (in *Interp) symNumText(name string, spec *DocSpec) *NumText {
